@@ -30,7 +30,7 @@ from hypothesis import strategies as st
 
 REP = [0, 1, 10, 25, 50, 75, 90, 100]
 
-# WebVTT 5.? "default classes for WebVTT caption or subtitle cue components"
+# WebVTT "Default classes for WebVTT Caption or Subtitle Cue Components"
 COLOURS = {
   "white": (255, 255, 255, 255), "lime": (0, 255, 0, 255), "cyan": (0, 255, 255, 255), "red": (255, 0, 0, 255),
   "yellow": (255, 255, 0, 255), "magenta": (255, 0, 255, 255), "blue": (0, 0, 255, 255), "black": (0, 0, 0, 255),
@@ -74,7 +74,8 @@ def profile(**kw):
                              # | loose (top level, text only; the last </rt> or the last <rt>...</rt> omitted)
     "entities": "safe",      # none | safe | semi (references that need the semicolon) | all
     "annot_entities": False, # character references inside <v ...> annotations
-    "geometry": "safe",      # none | safe | all | numbers (line-number ladders) | fractional
+    "geometry": "safe",      # none | safe (see _safe_settings) | all (every combination) | numbers (line-number ladders)
+                             # | fractional (safe shapes with fractional percentages)
     "empty_payload": False,  # cues without payload
     "odd_ids": False,        # identifiers that begin like a NOTE / STYLE block
     "blocks": True,          # NOTE / STYLE / REGION blocks
@@ -191,8 +192,6 @@ def render(desc):
       out.append("\n" + "\n" * b["gap"])
     else:
       out.append("\n" * desc["final"])
-  if not blocks and desc["final"] == 0:
-    pass
   return "".join(out)
 
 
@@ -715,7 +714,7 @@ def _expect_nodes(nodes, st_, g, out):
     elif t == "nl":
       if st_["role"] is None or st_["role"][0] == "rb":
         out["stream"].append(["\n", None])
-      else:
+      if st_["role"] is not None:
         r = st_["role"]
         out["rubies"][r[1]][r[0]][r[2]].append(["\n", None])
     elif t == "ts":
